@@ -1,17 +1,22 @@
 #!/bin/bash
-# seed_regression.sh [quick|thorough]: apply every kept seeded change to /repo in turn, run the quick tier of
-# the first check listed under caught_by in its meta.json, and confirm that it reports a VIOLATION; the
-# change is undone straight afterwards. Summary in seeded/regression.txt. /repo must be clean and idle.
+# seed_regression.sh: apply every kept seeded change to the repository in turn, run the quick tier of the
+# first check listed under caught_by in its meta.json, and confirm that it reports a VIOLATION; the change is
+# undone straight afterwards. Summary in seeded/regression.txt. The repository must be clean and idle.
+# REG_REPO (default /repo) names the repository copy to patch; with another copy (a scratch worktree) the
+# harness of this directory must depend on that copy (harness/Cargo.toml path) and VERIF_REPO is exported.
 set -u
-cd /verif || exit 2
+here="$(cd "$(dirname "$0")/.." && pwd)"
+cd "$here" || exit 2
+repo="${REG_REPO:-/repo}"
+export VERIF_REPO="$repo"
 out=seeded/regression.txt; : > $out
 for d in seeded/C*-r*/; do
   id=$(basename $d)
   chk=$(python3 -c "import json;print(json.load(open('$d/meta.json'))['caught_by'][0])")
-  if [ -n "$(git -C /repo status --porcelain)" ]; then echo "/repo not clean"; exit 2; fi
-  git -C /repo apply "/verif/${d%/}/patch.diff" || { echo "$id PATCH-DOES-NOT-APPLY" >> $out; continue; }
+  if [ -n "$(git -C "$repo" status --porcelain)" ]; then echo "$repo not clean"; exit 2; fi
+  git -C "$repo" apply "$here/${d%/}/patch.diff" || { echo "$id PATCH-DOES-NOT-APPLY" >> $out; continue; }
   res=$(timeout 3000 ./check $chk quick 2>&1)
-  git -C /repo checkout -- . 
+  git -C "$repo" checkout -- .
   n=$(echo "$res" | grep -c "^VIOLATION")
   sig=$(echo "$res" | grep -m1 "signature:" | cut -c1-120)
   if [ "$n" -gt 0 ]; then echo "$id $chk DETECTED $sig" >> $out; else echo "$id $chk MISSED $(echo "$res" | tail -1 | cut -c1-160)" >> $out; fi
